@@ -4,6 +4,7 @@ package pdf
 
 import (
 	"bytes"
+	"io"
 
 	"seehuhn.de/go/pdf/internal/verifrt"
 )
@@ -100,8 +101,19 @@ func verifOpt() OutputOptions {
 
 // verifParseOne parses exactly one object from buf and requires that all of
 // buf is consumed (trailing white space allowed).
+//
+// The text is delivered to the scanner either in one piece or in short reads
+// of 1 or 2 bytes (io.Reader allows them): with short reads the end of the
+// buffered window falls inside every multi-byte construct.
 func verifParseOne(buf []byte) (Native, bool) {
-	s := newScanner(bytes.NewReader(buf), nil, nil)
+	return verifParseFrom(&verifrt.ChunkReader{Data: buf, Chunk: verifrt.Choice("chunk", 3), EOF: io.EOF})
+}
+
+func verifParseFrom(r io.Reader) (Native, bool) {
+	return verifParseRest(newScanner(r, nil, nil))
+}
+
+func verifParseRest(s *scanner) (Native, bool) {
 	obj, err := s.ReadObject()
 	if err != nil {
 		return nil, false
@@ -283,4 +295,49 @@ func Verif_C01_dict() {
 	var buf2 bytes.Buffer
 	Format(&buf2, opt, d)
 	verifrt.Assert(bytes.Equal(buf.Bytes(), buf2.Bytes()), "formatting is deterministic")
+}
+
+// verifWindowToken: tokens whose representation spans several bytes.
+func verifWindowToken() Object {
+	switch verifrt.Choice("wkind", 6) {
+	case 0:
+		return Name(verifrt.String("nm", 2))
+	case 1:
+		return String(verifrt.Bytes("st", 2))
+	case 2:
+		return Integer(verifrt.IntRange("i", -1000, 1000))
+	case 3:
+		return verifReals[verifrt.Choice("real", len(verifReals))]
+	case 4:
+		return NewReference(uint32(verifrt.IntRange("refnum", 0, 999)), uint16(verifrt.IntRange("refgen", 0, 99)))
+	default:
+		return Dict{Name(verifrt.String("key", 1)): Boolean(verifrt.Bool("b"))}
+	}
+}
+
+// Verif_C01_window_position: the result of parsing does not depend on where
+// the text sits relative to the scanner's refill boundary: the formatted
+// value is preceded by white space so that byte j of it is the first byte
+// beyond the first window, for every j.
+func Verif_C01_window_position() {
+	arr := Array{verifWindowToken(), verifWindowToken()}
+	if verifrt.Tier() == 0 {
+		arr = arr[:1]
+	}
+	opt := verifOpt()
+	var buf bytes.Buffer
+	err := Format(&buf, opt, arr)
+	verifrt.Assert(err == nil, "format succeeds")
+	j := verifrt.Len("j", 0, buf.Len())
+	text := make([]byte, scannerBufSize-j, scannerBufSize+buf.Len())
+	for i := range text {
+		text[i] = ' '
+	}
+	text = append(text, buf.Bytes()...)
+	sc := newScanner(bytes.NewReader(text), nil, nil)
+	verifrt.Assert(sc.SkipWhiteSpace() == nil, "white space is skipped")
+	got, ok := verifParseRest(sc)
+	verifrt.Cover("parsed")
+	verifrt.Assert(ok, "output parses as exactly one object")
+	verifrt.Assert(verifEqual(arr, got), "round trip at any window position")
 }
